@@ -57,6 +57,19 @@ def collect(chk, pid, jobs, nw, targets):
     chk.traces += len(jobs)
     rows = chk.validate('Farm_Trace.tla', dict(spec='TraceSpec', constants=consts(nw, targets, 10**6, 10**6), extra=['POSTCONDITION AllConsumed']), files, name=f'Farm_Trace_{nw}_{len(targets)}')
     byid = {j['id']: j for j in jobs}
+    # vacuity counters (reporting only): how often the antecedents of the clauses were true on the real traces
+    for fn in files:
+        with open(fn) as f:
+            for ln in f:
+                for st in json.loads(ln)['steps']:
+                    o = st['obs']
+                    c = chk.counters
+                    c['task_messages_written'] = c.get('task_messages_written', 0) + len(o['written'])
+                    c['abort_told'] = c.get('abort_told', 0) + sum(1 for m in o['told'] if m['msg'] == 'abort')
+                    c['run_ids_drawn'] = c.get('run_ids_drawn', 0) + len(o['drawn'])
+                    c['ticks_while_inactive'] = c.get('ticks_while_inactive', 0) + (1 if st['ev'] == 'Tick' and not st['st']['active'] else 0)
+                    c['messages_left_queued'] = c.get('messages_left_queued', 0) + (len(st['st']['cluster']) if st['ev'] == 'Tick' else 0)
+                    c['run_id_reused'] = c.get('run_id_reused', 0) + sum(1 for m in o['put'] if m['run'] > 0 and not o['drawn'])
     for r in rows['DRIFT']:
         chk.drift += 1
         if len(chk.drift_samples) < 5:
@@ -98,6 +111,9 @@ def run(pid, tier, seed, replay=None):
         kinds = [e['ev'] for e in j['events']]
         if 'Register' in kinds and 'Tick' in kinds and 'Run' in kinds:
             nontriv.add(json.dumps(j['events'], sort_keys=True))
+    for k in ('task_messages_written', 'abort_told', 'run_ids_drawn', 'ticks_while_inactive', 'messages_left_queued', 'run_id_reused'):
+        if not chk.counters.get(k) and not chk.violations:
+            raise core.Machinery(f'vacuous run: counter {k} is zero')
     chk.counters.update(transitions_of_gen_instance=total, transitions_replayed=len(trans), sim_behaviours=len(sim), distinct_nontrivial=len(nontriv))
     chk.assumptions = [
         'fixed program a->b, a->r(regress); 2-4 worker connections, 1-2 targets, revisions rev0/rev1, one or two reload/archive cycles',
